@@ -255,11 +255,16 @@ def specDot65536f : Spec :=
   { key := none, flags := {}, width := none, prec := some (.quantity (.amount 65536)),
     ftype := .float .fix false, fchar := 102 }
 
-/-- The former witness of the `format!` precision panic: `"%.65536f" % 1.5` is `1.5` followed by 65535
-    zeros (the model returned `none` = panic before the fix). -/
+/-- The former witness of the `format!` precision panic, `"%.65536f" % 1.5`, is a text now (the model
+    returned `none` = panic before the fix); by `float_eq` it is Python's text.  Evaluated below the
+    old limit but above the digit clamp: `"%.1200f" % 1.5` is `1.5` followed by 1199 zeros. -/
 theorem float_precision_over_u16_repaired :
-    formatFloat specDot65536f 0x3FF8000000000000 =
-      some ([49, 46, 53] ++ List.replicate 65535 48) := by decide +kernel
+    (formatFloat specDot65536f 0x3FF8000000000000).isSome = true ∧
+    formatFloat { specDot65536f with prec := some (.quantity (.amount 1200)) } 0x3FF8000000000000 =
+      some ([49, 46, 53] ++ List.replicate 1199 48) := by
+  constructor
+  · rw [float_eq specDot65536f _ .fix false rfl]; rfl
+  · decide +kernel
 
 /-! ## no panics inside the domain
    (`formatString`, `formatChar` and, since 86620af, `formatBytes` are total functions of the model: the
